@@ -148,3 +148,95 @@ Proof.
   intros Hs H. apply step_inv in H. destruct H as (o1 & H & ->).
   unfold handle in H. cbn zeta in H. unfold api_stop in H. mi H; auto.
 Qed.
+
+(* ---------------- graceful shutdown waits for the processing in progress ---------------- *)
+(* shutdown() while a processor result is awaited: nothing is cancelled, sent or reported; the processor result stays
+   awaited and carries shutdown's continuation; the flags are set.  In EVERY state with a processor result pending. *)
+Theorem shutdown_waits fuel s s' o l rs c :
+  s_proc s = Some (l, rs, c) -> is_some (s_startd s) = true -> s_shutd s = false -> s_inapi s = 0 -> s_pend s = [] ->
+  step fuel s EShutdown = (s', o) ->
+  o = [ORet 0; OEnd (s_lp s) (s_lc s)] /\ s_proc s' = Some (l, rs, true) /\ s_shutting s' = true /\ s_shutd s' = true /\
+  s_req s' = s_req s /\ s_cds s' = s_cds s /\ s_creq s' = s_creq s /\ s_startd s' = s_startd s /\ s_mblock s' = s_mblock s.
+Proof.
+  intros Hp Hs Hd Hi Hpe H. apply step_inv in H. destruct H as (o1 & H & ->).
+  unfold handle in H. cbn zeta in H. unfold api_shutdown in H. mi H; split_state_if; psimpl; rewrite ?Hpe; cbn [app].
+  all: try (rewrite Hs, Hd in *; discriminate).
+  all: inversion Hp; subst; repeat split; auto.
+Qed.
+
+(* ... and when that result arrives the continuation runs: the event handler for the processor result executes
+   _commit_and_stop after the chain of the processor Deferred (by definition of KFireProc); what it does is covered by
+   C13_shutdown_commits and C13_stopping_inert *)
+
+(* ---------------- a restarted consumer delivers again ---------------- *)
+(* start(off) on a stopped consumer whose shutdown bookkeeping is clear sends the fetch; the reply to it, when it carries
+   a message at or after off, is handed to the processor. *)
+Lemma start_state fuel s off s1 o1 :
+  quiescent s = true -> s_shutting s = false -> 0 <= off -> step fuel s (EStart off) = (s1, o1) ->
+  s_req s1 = Some (R_FETCH, false) /\ s_mblock s1 = None /\ s_shutting s1 = false /\ s_stopping s1 = false /\
+  s_startd s1 = Some false /\ s_foff s1 = off /\ In (OFetch off (s_buf s)) o1.
+Proof.
+  intros Hq Hsh Hoff H. unfold quiescent, is_none, is_some, rcall_active, looper_armed, is_nil in Hq. bsimp.
+  destruct (s_startd s) eqn:Esd; [discriminate|]. destruct (s_req s) eqn:Ereq; [discriminate|].
+  destruct (s_mblock s) eqn:Emb; [discriminate|].
+  apply step_inv in H. destruct H as (o' & H & ->).
+  unfold handle in H. cbn zeta in H. unfold do_fetch, startd_errback, flush_pend in *.
+  assert (E1 : (off =? OFF_EARLIEST) = false) by (unfold OFF_EARLIEST; lia).
+  assert (E2 : (off =? OFF_LATEST) = false) by (unfold OFF_LATEST; lia).
+  assert (E3 : (off =? OFF_COMMITTED) = false) by (unfold OFF_COMMITTED; lia).
+  mi H; psimpl; rewrite ?E1, ?E2, ?E3 in *; cbn [orb] in *; try discriminate.
+  all: repeat split; auto; try (apply in_or_app; left); cbn; auto 10.
+Qed.
+
+Lemma procloop_delivers f m ms s r s' o :
+  run f (KProcLoop (m :: ms)) s = (r, s', o) -> fuel_ok o = true ->
+  s_shutting s = false -> s_stopping s = false -> s_startd s = Some false -> exists blk, In (OCallProc blk) o.
+Proof.
+  intros H Hf Hsh Hst Hsd. destruct f as [|f]; cbn [run] in H.
+  - mi H. cbn in Hf. discriminate.
+  - cbn [body] in H. mi H; try congruence.
+    all: try (eexists; cbn [app]; left; reflexivity).
+Qed.
+
+Lemma in_mid {A} (x : A) a b c : In x b -> In x (a ++ b ++ c).
+Proof. intro H. apply in_or_app. right. apply in_or_app. left. exact H. Qed.
+
+Lemma fetchresp_delivers f offs m ms fo s r s' o :
+  run f (KFetchResp offs false) s = (r, s', o) -> fuel_ok o = true -> s_mblock s = None ->
+  s_shutting s = false -> s_stopping s = false -> s_startd s = Some false -> extract (s_foff s) offs = (m :: ms, fo) ->
+  exists blk, In (OCallProc blk) o.
+Proof.
+  intros H Hf Hmb Hsh Hst Hsd Hex. destruct f as [|f]; cbn [run] in H.
+  - mi H. cbn in Hf. discriminate.
+  - cbn [body] in H. mi H; psimpl; try congruence.
+    all: cbn [app] in *; fuel_split.
+    all: match goal with E : run _ (KProcLoop _) ?x = _, Hf : fuel_ok _ = true |- _ =>
+           destruct (procloop_delivers _ _ _ _ _ _ _ E Hf) as (blk & Hin); [psimpl; assumption ..|] end.
+    all: exists blk; repeat (apply in_or_app; first [left; exact Hin | right]); try exact Hin.
+Qed.
+
+Theorem delivers_reply fuel s1 offs s2 o2 m ms fo :
+  s_req s1 = Some (R_FETCH, false) -> s_mblock s1 = None -> s_shutting s1 = false -> s_stopping s1 = false ->
+  s_startd s1 = Some false -> extract (s_foff s1) offs = (m :: ms, fo) ->
+  step fuel s1 (EFetchOk offs false) = (s2, o2) -> fuel_ok o2 = true ->
+  exists blk, In (OCallProc blk) o2.
+Proof.
+  intros Hreq Hmb Hsh Hst Hsd Hex H Hf.
+  apply step_inv in H. destruct H as (o' & H & ->). apply fuel_ok_app_inv in Hf. destruct Hf as (Hf & _).
+  unfold handle in H. cbn zeta in H. mi H; try discriminate; fuel_split.
+  all: match goal with E : run _ (KFetchResp _ _) ?x = _, Hf : fuel_ok _ = true |- _ =>
+         destruct (fetchresp_delivers _ _ m ms fo _ _ _ _ E Hf) as (blk & Hin); [psimpl; eassumption ..|] end.
+  all: exists blk; apply in_or_app; left; repeat (apply in_or_app; first [left; exact Hin | right]); try exact Hin.
+Qed.
+
+(* a consumer that was stopped and whose shutdown bookkeeping is clear delivers again after start() *)
+Theorem delivers_again fuel s off s1 o1 offs s2 o2 m ms fo :
+  quiescent s = true -> s_shutting s = false -> 0 <= off ->
+  step fuel s (EStart off) = (s1, o1) -> extract off offs = (m :: ms, fo) ->
+  step fuel s1 (EFetchOk offs false) = (s2, o2) -> fuel_ok o2 = true ->
+  In (OFetch off (s_buf s)) o1 /\ exists blk, In (OCallProc blk) o2.
+Proof.
+  intros Hq Hsh Hoff H1 Hex H2 Hf.
+  destruct (start_state _ _ _ _ _ Hq Hsh Hoff H1) as (a & b & c & d & e & g & h).
+  split; [exact h|]. rewrite <- g in Hex. exact (delivers_reply _ _ _ _ _ _ _ _ a b c d e Hex H2 Hf).
+Qed.
